@@ -5,8 +5,9 @@
      4  PbValue.WriteTo:                 compared with pb_write_i (bytes, visit count, stack bound)
      5  pkg/tuple string functions:      compared with the *_go models (which can say Panic)
      6  NewAndValidate on a nested rewrite: wire size against the nesting bound
-     7  WriteAuthorizationModel (+ follow-up queries): class, abstraction of the model; the
-        hasCycle cost model decides whether an overrun is the listed finding
+     7  WriteAuthorizationModel (+ follow-up queries): class, class of the write itself,
+        abstraction of the model; the hasCycle cost model decides whether an overrun is the listed
+        finding, and a model in which it finds a cycle / undefined relation must be rejected
    Outcome classes: 0 ok 1 validation 2 client error 3 deadline answer 4 internal error
      5 PANIC escaped the handler 6 panic captured in the handler 7 DEADLINE OVERRUN
      8 MEMORY BLOW-UP 9 PROCESS CRASH 10 transport error.
@@ -216,8 +217,8 @@ let f _id vs =
       end
     end
 
-  | [I "7"; cl; _; abs] ->
-    let c = as_int cl in
+  | [I "7"; cl; _; first; abs] ->
+    let c = as_int cl and first = as_int first in
     let types = List.map (fun t -> List.map parse_rw (as_list t)) (as_list abs) in
     let nodes = List.fold_left (fun a t -> List.fold_left (fun a r -> a + rw_count r) (a + 1) t) 0 types in
     let budget = 100000 in
@@ -228,6 +229,8 @@ let f _id vs =
          Printf.sprintf "KNOWN model_validation_hascycle_cost hasCycle needs more than %d calls for this model (%d rewrite nodes)" budget nodes
        else "PROP deadline overrun on a model whose hasCycle cost is small")
     else if bad_class c then "PROP model case: " ^ class_name c
+    else if first = 0 && res = HCycle then "DIFF the model of hasCycle finds a cycle of computed usersets, the server accepted the model"
+    else if first = 0 && res = HErr then "DIFF the model of hasCycle meets an undefined relation, the server accepted the model"
     else "OK"
 
   | _ -> "DIFF malformed-record"
